@@ -17,7 +17,10 @@ Expression level
   * `{k: v for k, v in X.items()}` -> `dict(X)`
 Statement level
   * `if c: x = True else: x = False` -> `x = c`, `if c: return True else: return False` -> `return c` (c boolean-typed)
-  * a bare `return` in tail position of a function that returns no value is dropped
+  * `if c: return B else: return False` -> `return c and B` and the three dual forms (c boolean-typed: exact)
+  * `for t in it: if c: return False` + `return X` -> `return all(not c for t in it) and X` (dually any/or): exact
+  * a bare `return` in tail position of a function that returns no value is dropped; likewise `continue`
+    in tail position of a loop body
   * `if not c: A else: B`                        ->  `if c: B else: A`
   * guard clause: `if c: <...exit>` followed by REST  ->  `if c: <...exit> else: REST`
     and `if c: <...exit> else: B` followed by REST      ->  `if c: <...exit> else: B; REST` (either arm)
@@ -516,6 +519,10 @@ def canon_block(stmts):
     res = []
     for s in reversed(stmts):
         s = _merge_nested_if(s)
+        q = _quantifier_loop(s, res)
+        if q is not None:
+            res = [q] + res[1:]
+            continue
         if isinstance(s, ast.If) and not s.orelse and _exits(s.body) and res:
             s = _loc(ast.If(test=s.test, body=s.body, orelse=list(res)), s)
             res = [swap_if(s)]
@@ -592,11 +599,42 @@ def _bool_const(e):
     return isinstance(e, ast.Constant) and isinstance(e.value, bool)
 
 
+def _simplify_bool(e):
+    """`E and True` -> E, `E or False` -> E (E boolean-typed); `True and E` / `False or E` -> E; flatten"""
+    e = ExprCanon().visit(ast.fix_missing_locations(e))
+    if isinstance(e, ast.BoolOp):
+        unit = isinstance(e.op, ast.And)
+        vals = list(e.values)
+        out = []
+        for i, v in enumerate(vals):
+            if _bool_const(v) and v.value is unit:
+                last = i == len(vals) - 1
+                if not last or (out and _boolean_typed(out[-1])):
+                    continue
+            out.append(v)
+        if not out:
+            return _loc(ast.Constant(value=unit), e)
+        if len(out) == 1:
+            return out[0]
+        e.values = out
+    return e
+
+
 def _bool_if(s):
-    """`if c: x = True else: x = False` -> `x = c`; `if c: return True else: return False` -> `return c` (c boolean-typed)"""
+    """`if c: x = True else: x = False` -> `x = c`; `if c: return True else: return False` -> `return c`;
+    `if c: return B else: return False` -> `return c and B` (and the three dual forms), c boolean-typed"""
     if not (isinstance(s, ast.If) and len(s.body) == 1 and len(s.orelse) == 1 and _boolean_typed(s.test)):
         return s
     b, o = s.body[0], s.orelse[0]
+    if isinstance(b, ast.Return) and isinstance(o, ast.Return) and b.value is not None and o.value is not None and (_bool_const(b.value) != _bool_const(o.value)):
+        notc = lambda: ExprCanon().visit(ast.fix_missing_locations(negate(copy.deepcopy(s.test))))
+        if _bool_const(b.value):
+            # if c: return True else: return B -> c or B ;  if c: return False else: return B -> not c and B
+            val = ast.BoolOp(op=ast.Or(), values=[s.test, o.value]) if b.value.value else ast.BoolOp(op=ast.And(), values=[notc(), o.value])
+        else:
+            # if c: return B else: return False -> c and B ;  if c: return B else: return True -> not c or B
+            val = ast.BoolOp(op=ast.Or(), values=[notc(), b.value]) if o.value.value else ast.BoolOp(op=ast.And(), values=[s.test, b.value])
+        return _loc(ast.Return(value=_simplify_bool(_loc(val, s))), s)
     if isinstance(b, ast.Return) and isinstance(o, ast.Return) and _bool_const(b.value) and _bool_const(o.value) and b.value.value != o.value.value:
         val = s.test if b.value.value else ExprCanon().visit(ast.fix_missing_locations(negate(copy.deepcopy(s.test))))
         return _loc(ast.Return(value=val), s)
@@ -626,6 +664,22 @@ def _strip_tail_returns(stmts):
             last.orelse = _strip_tail_returns(last.orelse)
     elif isinstance(last, (ast.With, ast.AsyncWith)):
         last.body = _strip_tail_returns(last.body)
+    return stmts
+
+
+def _strip_tail_continue(stmts):
+    """`continue` in tail position of a loop body is the same as reaching the end of the body"""
+    if not stmts:
+        return stmts
+    last = stmts[-1]
+    if isinstance(last, ast.Continue):
+        return stmts[:-1] or [_loc(ast.Pass(), last)]
+    if isinstance(last, ast.If):
+        last.body = _strip_tail_continue(last.body)
+        if last.orelse:
+            last.orelse = _strip_tail_continue(last.orelse)
+    elif isinstance(last, (ast.With, ast.AsyncWith)):
+        last.body = _strip_tail_continue(last.body)
     return stmts
 
 
@@ -669,6 +723,24 @@ def _negative(t):
         return False
     other = ExprCanon().visit(ast.fix_missing_locations(negate(copy.deepcopy(t))))
     return _polarity(other) < _polarity(t)
+
+
+def _quantifier_loop(s, res):
+    """`for t in it: if c: return False` followed by `return X`  ->  `return all(not c for t in it) and X`
+    (`return True` in the loop: `any(c for t in it) or X`).  Exact: all()/any() yield booleans."""
+    if not (isinstance(s, ast.For) and not s.orelse and len(s.body) == 1 and res and isinstance(res[0], ast.Return) and res[0].value is not None):
+        return None
+    inner = s.body[0]
+    if not (isinstance(inner, ast.If) and not inner.orelse and len(inner.body) == 1 and isinstance(inner.body[0], ast.Return) and _bool_const(inner.body[0].value)):
+        return None
+    if any(isinstance(n, (ast.Yield, ast.YieldFrom, ast.Await, ast.NamedExpr)) for n in ast.walk(s)):
+        return None
+    found = inner.body[0].value.value
+    cond = inner.test if found else ExprCanon().visit(ast.fix_missing_locations(negate(copy.deepcopy(inner.test))))
+    gen = ast.comprehension(target=s.target, iter=s.iter, ifs=[], is_async=0)
+    q = _loc(ast.Call(func=_loc(ast.Name(id="any" if found else "all", ctx=ast.Load()), s), args=[_loc(ast.GeneratorExp(elt=cond, generators=[gen]), s)], keywords=[]), s)
+    val = _loc(ast.BoolOp(op=ast.Or() if found else ast.And(), values=[q, res[0].value]), s)
+    return ast.fix_missing_locations(_loc(ast.Return(value=_simplify_bool(val)), s))
 
 
 def _merge_nested_if(s):
@@ -741,6 +813,7 @@ def canon_stmt(s):
         s.orelse = canon_block(s.orelse)
     elif isinstance(s, (ast.For, ast.AsyncFor, ast.While)):
         s.body = canon_block(s.body)
+        s.body = canon_block(_strip_tail_continue(s.body))
         s.orelse = canon_block(s.orelse)
     elif isinstance(s, (ast.With, ast.AsyncWith)):
         s.body = canon_block(s.body)
